@@ -397,7 +397,11 @@ func cmdCheck(args []string) int {
 		} else if !good && ob.Solver == "frame-checker" && ob.Status == "refuted" {
 			// decided by the frame / determinism back end (no solver involved): a new source of shared state or nondeterminism
 			path := writeReplay(replayDir, *prop, ob, p)
-			violations = append(violations, fmt.Sprintf("VIOLATION property=%s replay=%s no-failing-input-found", *prop, path))
+			suffix := ""
+			if !replayConfirmed(path) {
+				suffix = " no-failing-input-found"
+			}
+			violations = append(violations, fmt.Sprintf("VIOLATION property=%s replay=%s%s", *prop, path, suffix))
 			nObl++
 		} else if !good && *prop == "C17" && (ob.Kind == "safe" || ob.Kind == "pre" || strings.HasPrefix(ob.Name, "safe:") || strings.HasPrefix(ob.Name, "pre:")) && replayConfirmed(writeReplay(replayDir, *prop, ob, p)) {
 			// a new panic site (or a new call whose precondition fails) in code exposed to the entry points, and the panic
